@@ -215,7 +215,8 @@ def eliminate_qualify(expression: exp.Expr) -> exp.Expr:
     if isinstance(expression, exp.Select) and expression.args.get("qualify"):
         taken = set(expression.named_selects)
         for select in expression.selects:
-            if not select.alias_or_name:
+            # The "name" of a literal is its value, which can't be used to refer to it from the outer query
+            if not select.alias_or_name or isinstance(select, exp.Literal):
                 alias = find_new_name(taken, "_c")
                 select.replace(exp.alias_(select, alias))
                 taken.add(alias)
